@@ -290,5 +290,9 @@ IP_STRS = ['127.0.0.1', '127.0.0.1/8', '10.0.0.0/24', '224.0.0.1', '224.0.0.0/4'
            'ABCD::ef01', '::ffff:e000:1', '0:0:0:0:0:0:0:1', '::1/0']
 
 
+EXPR_HEADS = {'lit', 'var', 'and', 'or', 'not', 'neg', 'add', 'sub', 'mul', 'eq', 'ne', 'lt', 'le', 'gt', 'ge', 'in', 'contains', 'containsAll', 'containsAny',
+              'isEmpty', 'access', 'has', 'getTag', 'hasTag', 'like', 'is', 'isIn', 'if', 'mkset', 'mkrec', 'call'}
+
+
 def case(cid, kind, *parts):
     return '(case %s %s %s)' % (cid, kind, ' '.join(dump(p) for p in parts))
